@@ -107,3 +107,8 @@ func C04_Tokens(h *rt.H) {
 
 // C06_Bytes / C05 variants use the same comparison.
 func C06_Bytes(h *rt.H) { conform(h, ubjsonCodec, h.Bytes("in", h.Param("N", 3))) }
+
+// SHAPE_<codec>: shaped valid documents (see shapedDoc) against the reference decoder.
+func SHAPE_cborl(h *rt.H)  { conform(h, cborCodec, shapedDoc(h, cborCodec)) }
+func SHAPE_ubjson(h *rt.H) { conform(h, ubjsonCodec, shapedDoc(h, ubjsonCodec)) }
+func SHAPE_json(h *rt.H)   { conform(h, jsonCodec, shapedDoc(h, jsonCodec)) }
